@@ -113,6 +113,10 @@ class Cell(NullCell):
         # CellRepr(c) = CellRepr∞ (c) = d1d2 + data + depth(r_i) for all i + hash(r_i) for all i
         descs = self._descriptors
         data = self._data_bytes
+        if len(self._hashes) > 1:
+            # a cell of non-zero level (other than a pruned branch) has one hash per significant level; every hash
+            # after the first is taken over the previous one instead of the data (DataCell.cpp, calculate_hashes)
+            data = self._hashes[-2]
         result = descs + data
         depths = b''
         hashes = b''
